@@ -117,7 +117,32 @@ def worker(job):
                 res["s"].append({"what": f"aggregate {agg}, group {g} ({own} own calibration units, threshold {T}): the interval uses the calibration statistics of level(s) "
                                          f"{levels or 'none of its own ancestors'}, the rule says level {want} (0 = all units, {k} = the group itself)", "kind": "wrong-calibration-set"})
             checks.append(f"check_assign {k}%nat conf nu {llit([slit(x) for x in g])} {llit([f'{j}%nat' for j in levels])}")
-        # reported bounds equal the formula on the matched row
+        # reported bounds equal the formula on the matched row:
+        #   bound = round( max(sum of baselines + summed unit bound -/+ normal quantile(row statistics), counted votes of the outstanding units)
+        #                  + counted votes of everything else in the group )
+        aggname = next((a for a in p["aggregates"] if a != "unit" and aggfam.aggregate_list(case["office"], a) == agg), None)
+        tbl = h["agg"].get(f"{e}|{aggname}") if aggname else None
+        if tbl is not None:
+            trow = {tuple(str(r[c]) for c in agg): r for r in tbl["rows"]}
+            for g in nu_groups:
+                rows = rows_by_group.get(tuple(g), [])
+                tr = trow.get(tuple(str(x) for x in g))
+                if len(rows) != 1 or tr is None:
+                    continue
+                m = rows[0]
+                vn = sum(r[f"results_{e}"] for r in cp["nu"] if [r[c] for c in agg] == g)
+                wsum, wss = m["nonreporting_weight_sum"], m["nonreporting_weight_ssum"]
+                scale = math.sqrt(wss + m["var_inflate"] * wsum ** 2)
+                for side, sign in (("lower", -1), ("upper", 1)):
+                    mu, sg = m[f"mu_{side}_bound"], m[f"sigma_{side}_bound"]
+                    ppf = float(stats.norm.ppf(q=q, loc=wsum * mu, scale=sg * scale))
+                    raw = wsum + m[f"nonreporting_aggregate_{side}_bound"] + sign * ppf
+                    want = max(raw, vn) + (tr[f"results_{e}"] - vn)
+                    got = tr[f"{side}_{cp['alpha']}_{e}"]
+                    if not math.isfinite(want) or abs(got - want) > 0.5 + 1e-6 * max(1.0, abs(want)):
+                        res["s"].append({"what": f"aggregate {agg}, group {g}, level {cp['alpha']}: reported {side} bound {got} but the formula on the group's own model row, "
+                                                 f"floored at the {vn} votes already counted in its outstanding units, gives {want}", "kind": "formula"})
+                        break
         if checks:
             res["exprs"].append(f"let conf := {conf_lit} in let nu := {nu_lit} in {llit(checks)}")
             res["labels"].append([f"{agg}|{g}" for g in nu_groups if len(rows_by_group.get(tuple(g), [])) == 1][: len(checks)])
